@@ -75,10 +75,14 @@ class Ctx:
 
 
 def load_known():
+    import glob
+    out = []
     p = os.path.join(VERIF, "known_findings.json")
-    if not os.path.exists(p):
-        return []
-    return json.load(open(p))["findings"]
+    if os.path.exists(p):
+        out += json.load(open(p))["findings"]
+    for f in sorted(glob.glob(os.path.join(VERIF, "known_findings.d", "*.json"))):
+        out += json.load(open(f))["findings"]
+    return out
 
 
 def repo_state():
